@@ -7,32 +7,31 @@
   present, the hydrogen are passed over — the permutation is odd iff `j + hasH` is odd.  Reading puts the
   hydrogen back before the preceding atom: one more transposition iff `hasH`.
 
-  PARTIAL (stages 1 and 2).
-
-  Stage 2, `stereo_forest`: for EVERY well-formed adjacency list whose traversal meets no ring closure
-  (all forests) the complete round trip walk → write → read → build gives every atom its original kind
+  Stage 3, `stereo_roundtrip`: for EVERY well-formed adjacency list (rings included) on which the traversal
+  succeeds (it fails only by running out of ring numbers, D17) the complete round trip walk → write → read → build gives every atom its original kind
   (up to the C07 shorthands) with the `@`/`@@` mark flipped iff the bond it was entered through sits at an
   odd index of its bond list — exactly the sign of the permutation that moves that bond to the front of
   its neighbour order (C12 `substituent_order_forest` gives the re-read order); component roots keep their
-  mark.  Rings are stage 3 (in progress) and stay on the geometric oracle and the correspondence.
+  mark; every bond, ring closures included, keeps its kind as seen from each end, so directional bonds keep
+  their direction relative to the two atoms they join.  Proof: the simulation of Purr/Lemmas/RtcRing.lean
+  (see C01).  What is not a theorem: `walk` = `walkRec` (compared on every run).
 
   Stage 1, proved for every atom kind, every bond list and every entry position: the
   walker's local obligation (the kind it hands to the follower), the builder's, and their composition —
   the mark an atom ends up with after write + read is flipped iff the entry index is odd, and every
-  configuration other than the `@`/`@@` pairs is carried unchanged.  The lift to whole graphs (every
-  atom's entry index is the position of its arrival bond, the graph built from the traversal is the
-  relabelled original) is the round-trip core RTC, in progress (see DESIGN.md 4.1); until then it is
-  covered by the S-graph correspondence and the geometric oracle (signed permutation of neighbour
-  orders, hydrogen included).
+  configuration other than the `@`/`@@` pairs is carried unchanged.
 -/
 import Purr.Lemmas.StereoL
 import Purr.Props.C01
 namespace Purr.C03
 open Purr Purr.Spec
 
-/-- STAGE 2.  Stereo marks through the whole round trip of a forest. -/
-theorem stereo_forest (g : Graph) (hw : WellFormed g) (es : List (Event × Nat)) (ord : List Nat)
-    (h : walkRecL g = some (es, ord)) (hj : ∀ e ∈ es, isJoin e = false) (hne : es ≠ []) :
+/-- STAGE 3.  STEREO MARKS THROUGH THE WHOLE ROUND TRIP, for every well-formed adjacency list (rings included):
+    every atom keeps its kind up to the C07 shorthands, with the `@`/`@@` mark flipped iff the bond it was
+    entered through sits at an odd index of its bond list; every bond keeps its kind as seen from each end
+    (so `/` and `\` keep their direction relative to the two atoms they join). -/
+theorem stereo_roundtrip (g : Graph) (hw : WellFormed g) (es : List (Event × Nat)) (ord : List Nat)
+    (h : walkRecL g = some (es, ord)) (hne : es ≠ []) :
     ∃ t g', write? (es.map (·.1)) = some t ∧ (read t).2 = .ok ∧ build? (read t).1 = some (.ok g') ∧
       ∀ x atomX, g[x]? = some atomX → ∃ atom', g'[pos ord x]? = some atom' ∧
         ((atom'.kind = atomX.kind.norm ∧ atom'.bonds = atomX.bonds.map (fun b => ⟨b.kind, pos ord b.tid⟩)) ∨
@@ -40,7 +39,7 @@ theorem stereo_forest (g : Graph) (hw : WellFormed g) (es : List (Event × Nat))
            (∀ o ∈ post, o.tid ≠ back.tid) ∧
            atom'.bonds = (back :: (pre ++ post)).map (fun b => ⟨b.kind, pos ord b.tid⟩) ∧
            atom'.kind = (flipN pre.length atomX.kind).norm) := by
-  obtain ⟨t, g1, hw', hok, hb, hrel, hnd, hcov⟩ := C01.roundtrip_forest_relabelled g hw es ord h hj hne
+  obtain ⟨t, g1, hw', hok, hb, hrel, hnd, hcov⟩ := C01.roundtrip_relabelled g hw es ord h hne
   refine ⟨t, g1.map normAtom, hw', hok, hb, ?_⟩
   intro x atomX hgx
   have hx : x ∈ ord := (hcov x).mp (by
@@ -52,6 +51,18 @@ theorem stereo_forest (g : Graph) (hw : WellFormed g) (es : List (Event × Nat))
   · exact ⟨_, by rw [List.getElem?_map, hd]; rfl, Or.inl ⟨rfl, rfl⟩⟩
   · subst h2
     exact ⟨_, by rw [List.getElem?_map, hd]; rfl, Or.inr ⟨pre, back, post, h1, h3, h4, rfl, rfl⟩⟩
+
+/-- STAGE 2 (subsumed by stage 3): the forest case -/
+theorem stereo_forest (g : Graph) (hw : WellFormed g) (es : List (Event × Nat)) (ord : List Nat)
+    (h : walkRecL g = some (es, ord)) (_hj : ∀ e ∈ es, isJoin e = false) (hne : es ≠ []) :
+    ∃ t g', write? (es.map (·.1)) = some t ∧ (read t).2 = .ok ∧ build? (read t).1 = some (.ok g') ∧
+      ∀ x atomX, g[x]? = some atomX → ∃ atom', g'[pos ord x]? = some atom' ∧
+        ((atom'.kind = atomX.kind.norm ∧ atom'.bonds = atomX.bonds.map (fun b => ⟨b.kind, pos ord b.tid⟩)) ∨
+         ∃ pre back post, atomX.bonds = pre ++ back :: post ∧ (∀ o ∈ pre, o.tid ≠ back.tid) ∧
+           (∀ o ∈ post, o.tid ≠ back.tid) ∧
+           atom'.bonds = (back :: (pre ++ post)).map (fun b => ⟨b.kind, pos ord b.tid⟩) ∧
+           atom'.kind = (flipN pre.length atomX.kind).norm) :=
+  stereo_roundtrip g hw es ord h hne
 
 /-- normalisation (the C07 shorthands) acts on the configuration only by the documented identification of
     `@`/`@@` for the TH and AL pair, and commutes with flipping: a flipped mark stays flipped -/
